@@ -1,12 +1,1562 @@
-//! C04 - (to be written)
+//! C04 - external products and CMux multiply by the GGSW plaintext within noise; every cell of a GGSW produced by
+//! row expansion / key switch / automorphism encrypts m2 * gadget(row) * (1 | s_col).
+//!
+//! Oracle: exact phase (R3) of the result minus the exact negacyclic product m2 * phase(input) (R2, big integers),
+//! bounded by the R9 worst-case bound of the vector-matrix gadget product.  Every call is executed twice: from
+//! zero-filled scratch (this run carries the C04 verdict) and from garbage-filled scratch (NaN / huge pattern); a
+//! ciphertext that differs between the two runs is reported under the separate kind `scratch_dependent_result`
+//! (property C12 class) and never masks or replaces the C04 verdict.
 
-use pvc_engine::Run;
-use serde_json::Value;
+use crate::c03::{Shape, auto_big, check_key_rows, pick_kp};
+use crate::c03b::SETUP_HOT;
+use crate::kit::*;
+use poulpy_bin_fhe::bdd_arithmetic::{Cmux, Cswap};
+use poulpy_core::layouts::{
+    GGLWE, GGLWELayout, GGLWEToGGSWKey, GGLWEToGGSWKeyLayout, GGLWEToGGSWKeyPreparedFactory, GGSW, GGSWLayout,
+    GGSWPrepared, GGSWPreparedFactory, GLWE, GLWEAutomorphismKey, GLWEAutomorphismKeyLayout, GLWEAutomorphismKeyPreparedFactory,
+    GLWELayout, GLWESwitchingKey, GLWESwitchingKeyLayout, GLWESwitchingKeyPreparedFactory,
+};
+use poulpy_core::{
+    GGLWEEncryptSk, GGLWEExternalProduct, GGLWEToGGSWKeyEncryptSk, GGSWAutomorphism, GGSWEncryptSk, GGSWExpandRows, GGSWExternalProduct,
+    GGSWFromGGLWE, GGSWKeyswitch, GLWEAutomorphismKeyEncryptSk, GLWEEncryptSk, GLWEExternalProduct, GLWESwitchingKeyEncryptSk,
+    ScratchTakeCore,
+};
+use poulpy_hal::layouts::{DataView, DataViewMut, DeviceBuf, Module, ScalarZnx, Scratch, ZnxViewMut};
+use poulpy_hal::source::Source;
+use pvc_common::phase::Dist;
+use pvc_common::{Bk, CoreAll, FFT64Avx, FFT64Ref, HalAll, NTT120Avx, NTT120Ref, for_backends};
+use pvc_engine::rng::{Rng, garbage};
+use pvc_engine::{Rec, Run, Tier, fnv, guarded};
+use pvc_model::IBig;
+use pvc_model::ring;
+use serde::{Deserialize, Serialize};
+use serde_json::{Value, json};
 
-pub fn run(_run: &mut Run) {
-    panic!("C04: not implemented yet");
+// ---------------------------------------------------------------------------------------------
+// GGSW plaintexts
+// ---------------------------------------------------------------------------------------------
+
+#[derive(Clone, Copy, Debug, PartialEq, Eq, Serialize, Deserialize)]
+pub enum M2 {
+    Zero,
+    One,
+    MinusOne,
+    /// X^k, k in [0, 2N)  (X^N = -1)
+    XPow(usize),
+    /// dense polynomial with coefficients in {-1,0,1}: base-3 digits of the index (digit 2 = -1)
+    Dense(u32),
 }
 
-pub fn replay(_run: &mut Run, _d: &Value) {
-    panic!("C04: not implemented yet");
+pub fn m2_poly(m: M2, n: usize) -> Vec<i64> {
+    let mut v = vec![0i64; n];
+    match m {
+        M2::Zero => {}
+        M2::One => v[0] = 1,
+        M2::MinusOne => v[0] = -1,
+        M2::XPow(k) => {
+            let one = {
+                let mut o = vec![0i64; n];
+                o[0] = 1;
+                o
+            };
+            v = ring::mul_xk(&one, k as i64);
+        }
+        M2::Dense(mut idx) => {
+            for x in v.iter_mut() {
+                *x = match idx % 3 {
+                    0 => 0,
+                    1 => 1,
+                    _ => -1,
+                };
+                idx /= 3;
+            }
+        }
+    }
+    v
+}
+
+/// index of a dense ternary polynomial without zero coefficient, seeded
+fn dense_full(n: usize, k: u64) -> M2 {
+    let mut rng = Rng::new(0xD3, k);
+    let mut idx: u32 = 0;
+    for i in 0..n.min(20) {
+        idx += (1 + (rng.next() % 2) as u32) * 3u32.pow(i as u32);
+    }
+    M2::Dense(idx)
+}
+
+fn l1(v: &[i64]) -> u128 {
+    v.iter().map(|x| x.unsigned_abs() as u128).sum()
+}
+
+/// exact m2 * p in Z[X]/(X^n+1)
+fn mul_m2(p: &[IBig], m2: &[i64]) -> Vec<IBig> {
+    mul_small(p, m2)
+}
+
+fn mul_msg(m1: &[i64], m2: &[i64], kp: usize) -> Vec<i64> {
+    let a: Vec<i128> = m1.iter().map(|&x| x as i128).collect();
+    let b: Vec<i128> = m2.iter().map(|&x| x as i128).collect();
+    ring::negacyclic_mul_i128(&a, &b).iter().map(|&x| wrap(x.rem_euclid(1i128 << kp) as i64, kp)).collect()
+}
+
+// ---------------------------------------------------------------------------------------------
+// shapes of the GGSW gadget
+// ---------------------------------------------------------------------------------------------
+
+/// `Shape` is reused: rank_in = rank_out = rank, k_key/b_key/dsize/dnum describe the GGSW.
+fn xp_shapes(tier: Tier, ns: &[usize], inplace: bool, reduced: bool) -> Vec<Shape> {
+    let mut out = vec![];
+    let triples: Vec<(usize, usize, usize)> = if tier.is_thorough() {
+        vec![(12, 12, 12), (8, 8, 8), (17, 17, 17), (12, 17, 12), (17, 12, 17), (10, 12, 8), (17, 10, 12), (8, 17, 12)]
+    } else {
+        vec![(12, 12, 12), (12, 17, 12), (10, 12, 8)]
+    };
+    let noises: Vec<NoiseCfg> = tier.pick(vec![NoiseCfg::Default], vec![NoiseCfg::Default, NoiseCfg::Tight]);
+    for &n in ns {
+        for &(b_in, b_key, b_out) in &triples {
+            if inplace && b_in != b_out {
+                continue;
+            }
+            for rank in 1..=3usize {
+                for dsize in 1..=4usize {
+                    for a_size in 1..=6usize {
+                        if reduced && !(a_size == 2 || a_size == 5) {
+                            continue;
+                        }
+                        let a_conv = if b_in == b_key { a_size } else { (a_size * b_in).div_ceil(b_key) };
+                        let needed = a_conv.div_ceil(dsize);
+                        // dnum 1..max: every value from 1 to needed+1
+                        for dnum in 1..=needed + 1 {
+                            if reduced && dnum != needed && dnum != 1 {
+                                continue;
+                            }
+                            let rel = if dnum < needed {
+                                "less"
+                            } else if dnum == needed {
+                                "equal"
+                            } else {
+                                "more"
+                            };
+                            let min_size = (dnum * dsize).max(dsize + 1);
+                            let k_min = min_size * b_key;
+                            let k_ct = a_conv * b_key;
+                            let mut seen: Vec<usize> = vec![];
+                            for k in [k_min, (k_ct + dsize * b_key + 1).max(k_min)] {
+                                if seen.contains(&k) {
+                                    continue;
+                                }
+                                seen.push(k);
+                                let kprec = if k < k_ct {
+                                    "below"
+                                } else if k == k_ct {
+                                    "equal"
+                                } else {
+                                    "above"
+                                };
+                                let k_in = a_size * b_in;
+                                let eq = k_in.div_ceil(b_out);
+                                let rv: Vec<(usize, &str)> = if inplace {
+                                    vec![(a_size, "equal")]
+                                } else {
+                                    let mut r = vec![(eq, "equal"), (k.max(k_in).div_ceil(b_out) + 1, "longer")];
+                                    if eq > 1 {
+                                        r.insert(0, (eq - 1, "shorter"));
+                                    }
+                                    r
+                                };
+                                for (res_size, res_rel) in rv {
+                                    if reduced && res_rel == "shorter" {
+                                        continue;
+                                    }
+                                    for &noise in &noises {
+                                        out.push(Shape {
+                                            n,
+                                            rank_in: rank,
+                                            rank_out: rank,
+                                            dsize,
+                                            a_size,
+                                            dnum,
+                                            dnum_rel: rel.into(),
+                                            k_key: k,
+                                            kprec: kprec.into(),
+                                            b_in,
+                                            b_key,
+                                            b_out,
+                                            res_size,
+                                            res_rel: res_rel.into(),
+                                            noise,
+                                        });
+                                    }
+                                }
+                            }
+                        }
+                    }
+                }
+            }
+        }
+    }
+    out.sort_by_key(|s| (s.n, s.rank_in, s.dsize, s.a_size, s.dnum, s.b_in != s.b_key || s.b_key != s.b_out));
+    out
+}
+
+/// worst-case |phase(a x GGSW(m2)) - m2 * phase(a)|; `digit_factor` = 2 when the decomposed operand is an
+/// un-normalised difference of two normalised ciphertexts (CMux family: digits up to 2^b)
+fn xp_bound(s: &Shape, e2: u128, m2_l1: u128, digit_factor: u64) -> Bnd {
+    let g = Gadget {
+        n: s.n,
+        cols_in: s.rank_in + 1,
+        a_size: s.a_conv_size(),
+        b_key: s.b_key,
+        dsize: s.dsize,
+        dnum: s.dnum,
+        key_size: s.key_size(),
+        k_noise: s.k_key,
+        e2,
+        // column 0 carries m2, column j carries m2 * s_j (l1 <= |m2|_1 * n)
+        pt_l1: m2_l1 * s.n as u128,
+    };
+    let mut b = g.bound().times(digit_factor);
+    b.plus(&ulp_phase(s.n, s.rank_out, s.res_size, s.b_out, "result_rounding"));
+    b
+}
+
+fn ggsw_layout(s: &Shape) -> GGSWLayout {
+    GGSWLayout {
+        n: (s.n as u32).into(),
+        base2k: (s.b_key as u32).into(),
+        k: (s.k_key as u32).into(),
+        rank: (s.rank_in as u32).into(),
+        dnum: (s.dnum as u32).into(),
+        dsize: (s.dsize as u32).into(),
+    }
+}
+
+fn glwe_layout(n: usize, b: usize, k: usize, rank: usize) -> GLWELayout {
+    GLWELayout {
+        n: (n as u32).into(),
+        base2k: (b as u32).into(),
+        k: (k as u32).into(),
+        rank: (rank as u32).into(),
+    }
+}
+
+/// every cell (row, col) of a GGSW decrypts to m2 * 2^-((row+1) dsize b) * (1 | s_{col-1}) within the hard noise
+/// bound.  (The factor of column col >= 1 is +s_{col-1}: with phase = body + sum mask_i s_i, the external product
+/// sum_j digits(c_j) * row_j then has phase m2 * (c_0 + sum_j c_j s_j).)
+fn check_ggsw_cells(g: &GGSW<Vec<u8>>, m2: &[i64], sk: &[Vec<i64>], s: &Shape, slack: &Bnd) -> Result<(), Value> {
+    let b = s.b_key;
+    let mut cache: Vec<Vec<i64>> = vec![m2.to_vec()];
+    for sj in sk {
+        let a: Vec<i128> = m2.iter().map(|&x| x as i128).collect();
+        let bb: Vec<i128> = sj.iter().map(|&x| x as i128).collect();
+        cache.push(ring::negacyclic_mul_i128(&a, &bb).iter().map(|&x| x as i64).collect());
+    }
+    for row in 0..s.dnum {
+        let gexp = (row + 1) * s.dsize * b;
+        for col in 0..=s.rank_in {
+            let (ph, bits) = glwe_phase(&g.at(row, col), sk);
+            let tot = bits.max(gexp);
+            let limit = slack.at(tot);
+            for i in 0..s.n {
+                let (d, dbits) = terr(&ph[i], bits, &IBig::from(cache[col][i]), gexp);
+                let d = ibig_abs(&d) << (tot - dbits);
+                if d > limit {
+                    return Err(json!({"row": row, "col": col, "index": i, "err_log2": log2_of(&d, tot), "limit_log2": log2_of(&limit, tot)}));
+                }
+            }
+        }
+    }
+    Ok(())
+}
+
+fn noise_only(e2: u128, k: usize) -> Bnd {
+    let mut b = Bnd::zero();
+    b.add_u(e2, k + 1, "encryption_noise");
+    b
+}
+
+/// library GGSW encryption of m2 + prepared form
+#[allow(clippy::type_complexity)]
+fn make_ggsw<B: Bk>(
+    m: &Module<B>,
+    s: &Shape,
+    m2: &[i64],
+    sk: &GSk<B>,
+    scr: &mut Scr,
+    tag: u64,
+) -> Result<(GGSW<Vec<u8>>, GGSWPrepared<DeviceBuf<B>, B>), (String, Value)>
+where
+    Module<B>: HalAll<B> + CoreAll<B>,
+    Scratch<B>: ScratchTakeCore<B>,
+{
+    let lay = ggsw_layout(s);
+    let noise = noise_infos(s.noise, s.k_key);
+    let mut g = GGSW::alloc_from_infos(&lay);
+    let mut pt = ScalarZnx::alloc(s.n, 1);
+    pt.at_mut(0, 0).copy_from_slice(m2);
+    let mut xe = Source::new(seed32(tag, 11));
+    let mut xa = Source::new(seed32(tag, 12));
+    scr.fill_prefix(0, SETUP_HOT);
+    guarded(|| m.ggsw_encrypt_sk(&mut g, &pt, &sk.prep, &noise, &mut xe, &mut xa, scr.get::<B>()))
+        .map_err(|p| ("panic".to_string(), json!({"stage": "ggsw_encrypt", "panic": p})))?;
+    check_ggsw_cells(&g, m2, &sk.clear, s, &noise_only(noise_e2(&noise), s.k_key)).map_err(|e| ("ggsw_noise_too_large".to_string(), e))?;
+    let mut prep = m.ggsw_prepared_alloc_from_infos(&lay);
+    scr.fill_prefix(0, SETUP_HOT);
+    guarded(|| m.ggsw_prepare(&mut prep, &g, scr.get::<B>())).map_err(|p| ("panic".to_string(), json!({"stage": "ggsw_prepare", "panic": p})))?;
+    Ok((g, prep))
+}
+
+fn shape_fields(s: &Shape) -> Value {
+    json!({"dsize": s.dsize, "dnum": s.dnum, "dnum_rel": s.dnum_rel, "kprec": s.kprec, "res_rel": s.res_rel, "a_mod_dsize": s.a_mod_dsize(),
+        "rank": s.rank_in, "radix_equal": s.b_in == s.b_key && s.b_key == s.b_out, "noise": s.noise})
+}
+
+fn mk_desc<C: Serialize>(op: &str, backend: &str, kind: &str, case: &C, s: &Shape, inner: Value, extra: Value) -> Value {
+    let mut d = json!({"op": op, "backend": backend, "kind": kind, "case": case, "inner": inner});
+    if let (Value::Object(dm), Value::Object(sm)) = (&mut d, shape_fields(s)) {
+        dm.extend(sm);
+    }
+    if let (Value::Object(dm), Value::Object(em)) = (&mut d, extra) {
+        dm.extend(em);
+    }
+    d
+}
+
+fn worst_err(got: &[IBig], gbits: usize, want: &[IBig], wbits: usize) -> (IBig, usize, usize) {
+    let tot = gbits.max(wbits);
+    let mut worst = IBig::from(0);
+    let mut wi = 0;
+    for i in 0..got.len() {
+        let (d, _) = terr(&got[i], gbits, &want[i], wbits);
+        let d = ibig_abs(&d);
+        if d > worst {
+            worst = d;
+            wi = i;
+        }
+    }
+    (worst, wi, tot)
+}
+
+/// Runs `call(fill)` from zero-filled (2) and garbage-filled (0 or 1) scratch/result buffers, applies `verdict` to the
+/// zero run (C04 verdict) and compares the raw result bytes of both runs (`bytes`), reporting through `emit`.
+fn two_runs<T>(
+    garbage_fill: usize,
+    mut call: impl FnMut(usize) -> Result<T, String>,
+    verdict: impl Fn(&T) -> Result<(), (String, Value)>,
+    bytes: impl Fn(&T) -> Vec<u8>,
+    mut emit: impl FnMut(&str, Value),
+) -> Option<T> {
+    let z = call(2);
+    let g = call(garbage_fill);
+    let mut out = None;
+    match &z {
+        Ok(r) => {
+            if let Err((kind, mut extra)) = verdict(r) {
+                if let Value::Object(m) = &mut extra {
+                    m.insert("scratch_fill".into(), json!("zeros"));
+                }
+                emit(&kind, extra);
+            }
+        }
+        Err(p) => emit("panic", json!({"panic": p, "scratch_fill": "zeros"})),
+    }
+    match (&z, &g) {
+        (Ok(rz), Ok(rg)) => {
+            if bytes(rz) != bytes(rg) {
+                let garbage_holds = verdict(rg).is_ok();
+                emit(
+                    "scratch_dependent_result",
+                    json!({"scratch_fill": garbage_fill, "symptom": "ciphertext differs from the zero-filled-scratch run", "garbage_run_within_bound": garbage_holds}),
+                );
+            }
+        }
+        (Ok(_), Err(p)) => emit(
+            "scratch_dependent_result",
+            json!({"scratch_fill": garbage_fill, "symptom": "panic only with garbage-filled scratch", "panic": p}),
+        ),
+        _ => {}
+    }
+    if let Ok(r) = z {
+        out = Some(r);
+    }
+    out
+}
+
+// ---------------------------------------------------------------------------------------------
+// family: GLWE x GGSW
+// ---------------------------------------------------------------------------------------------
+
+#[derive(Clone, Debug, Serialize, Deserialize)]
+pub struct XpCase {
+    pub op: String, // glwe_external_product | glwe_external_product_assign
+    pub backend: String,
+    pub shape: Shape,
+    pub m2s: Vec<M2>,
+}
+
+#[derive(Clone, Copy, Debug, PartialEq, Serialize, Deserialize)]
+pub enum Input {
+    Enc(Msg),
+    Raw(Raw),
+}
+
+fn xp_inputs(tier: Tier) -> Vec<Input> {
+    if tier.is_thorough() {
+        let mut v: Vec<Input> = vec![Msg::Ramp, Msg::MaxPos, Msg::MinNeg, Msg::Alt, Msg::Random(0)].into_iter().map(Input::Enc).collect();
+        v.extend([Raw::MaxPos, Raw::MinNeg, Raw::Alt, Raw::LastLimb, Raw::Random(0)].into_iter().map(Input::Raw));
+        v
+    } else {
+        vec![Input::Enc(Msg::Ramp), Input::Enc(Msg::MinNeg), Input::Raw(Raw::MinNeg), Input::Raw(Raw::Alt)]
+    }
+}
+
+pub fn exec_xp<B: Bk>(c: &XpCase, only: Option<(M2, Input)>, seed: u64, tier: Tier, rec: &mut Rec)
+where
+    Module<B>: HalAll<B> + CoreAll<B>,
+    Scratch<B>: ScratchTakeCore<B>,
+{
+    let s = &c.shape;
+    let n = s.n;
+    let rank = s.rank_in;
+    let assign = c.op.ends_with("_assign");
+    let m = B::module(n);
+    let tag = fnv(format!("{:?}{:?}{}", c.op, c.shape, c.backend).as_bytes()) ^ seed;
+    rec.distinct(tag);
+    rec.sample(|| serde_json::to_value(c).unwrap());
+    let mut scr = Scr::new(2 * MIB, 0);
+    let sk = glwe_sk::<B>(&m, n, rank, Dist::TernaryProb, seed32(tag, 1));
+    let e2 = noise_e2(&noise_infos(s.noise, s.k_key));
+    let a_lay = glwe_layout(n, s.b_in, s.k_in(), rank);
+    let r_lay = glwe_layout(n, s.b_out, s.k_out(), rank);
+    let hot = m.glwe_external_product_tmp_bytes(&r_lay, &a_lay, &ggsw_layout(s)) + HOT_SLACK;
+    let noise_in = noise_infos(s.noise, s.k_in());
+
+    for m2c in &c.m2s {
+        if let Some((o, _)) = &only {
+            if o != m2c {
+                continue;
+            }
+        }
+        let m2 = m2_poly(*m2c, n);
+        let m2_l1 = l1(&m2);
+        let mtag = tag ^ fnv(format!("{m2c:?}").as_bytes());
+        let (_, prep) = match make_ggsw::<B>(&m, s, &m2, &sk, &mut scr, mtag) {
+            Ok(x) => x,
+            Err((kind, e)) => {
+                rec.fail(mk_desc(&c.op, B::NAME, &kind, c, s, json!({"m2": m2c}), e));
+                continue;
+            }
+        };
+        let bound = xp_bound(s, e2, m2_l1, 1);
+        let mut total = bound.clone();
+        total.add_u(noise_e2(&noise_in) * m2_l1.max(1), s.k_in() + 1, "input_noise_times_m2");
+        let kp = pick_kp(&total, 8.min(s.b_in));
+        rec.add(if kp.is_some() { "cases_with_rounded_plaintext_check" } else { "cases_bound_only" }, 1);
+
+        for inp in xp_inputs(tier) {
+            if let Some((_, o)) = &only {
+                if *o != inp {
+                    continue;
+                }
+            }
+            let inner = json!({"m2": m2c, "input": inp});
+            let ih = fnv(format!("{inp:?}").as_bytes());
+            let mut ct_in = glwe_zeroed(n, s.b_in, s.k_in(), rank);
+            let mut msg: Option<Vec<i64>> = None;
+            match inp {
+                Input::Enc(mc) => {
+                    let kpp = kp.unwrap_or(1);
+                    let mv = message(mc, n, kpp, seed ^ ih);
+                    let pt = plaintext(n, s.b_in, s.k_in(), &mv, kpp);
+                    let mut xe = Source::new(seed32(mtag ^ ih, 5));
+                    let mut xa = Source::new(seed32(mtag ^ ih, 6));
+                    scr.fill_prefix(0, SETUP_HOT);
+                    if let Err(p) = guarded(|| m.glwe_encrypt_sk(&mut ct_in, &pt, &sk.prep, &noise_in, &mut xe, &mut xa, scr.get::<B>())) {
+                        rec.fail(mk_desc(&c.op, B::NAME, "panic", c, s, inner, json!({"stage": "input_encrypt", "panic": p})));
+                        continue;
+                    }
+                    if kp.is_some() {
+                        msg = Some(mv);
+                    }
+                }
+                Input::Raw(rc) => fill_raw(ct_in.data_mut(), s.b_in, rc, seed ^ ih),
+            }
+            let (p_in, bits_in) = glwe_phase(&ct_in, &sk.clear);
+            let want = mul_m2(&p_in, &m2);
+            let call = |fill: usize| -> Result<GLWE<Vec<u8>>, String> {
+                let mut res = if assign { glwe_clone(&ct_in) } else { garbage_glwe(n, s.b_out, s.k_out(), rank, fill % 2) };
+                scr.fill_prefix(fill, hot);
+                guarded(|| {
+                    if assign {
+                        m.glwe_external_product_assign(&mut res, &prep, scr.get::<B>())
+                    } else {
+                        m.glwe_external_product(&mut res, &ct_in, &prep, scr.get::<B>())
+                    }
+                })?;
+                Ok(res)
+            };
+            let verdict = |res: &GLWE<Vec<u8>>| -> Result<(), (String, Value)> {
+                let (p_out, bits_out) = glwe_phase(res, &sk.clear);
+                let (worst, wi, tot) = worst_err(&p_out, bits_out, &want, bits_in);
+                let limit = bound.at(tot);
+                if worst > limit {
+                    return Err((
+                        "noise_too_large".into(),
+                        json!({"index": wi, "err_log2": log2_of(&worst, tot), "bound_log2": log2_of(&limit, tot), "bound_terms": bound.describe()}),
+                    ));
+                }
+                if let (Some(mv), Some(kpp)) = (&msg, kp) {
+                    let want_m = mul_msg(mv, &m2, kpp);
+                    let got_m: Vec<i64> = p_out.iter().map(|x| round_to(x, bits_out, kpp)).collect();
+                    if got_m != want_m {
+                        return Err(("wrong_plaintext".into(), json!({"kp": kpp, "got": got_m, "want": want_m})));
+                    }
+                }
+                Ok(())
+            };
+            rec.evals(2);
+            let r = two_runs(
+                (ih % 2) as usize,
+                call,
+                verdict,
+                |r: &GLWE<Vec<u8>>| r.data().data.clone(),
+                |kind, extra| rec.fail(mk_desc(&c.op, B::NAME, kind, c, s, inner.clone(), extra)),
+            );
+            if let Some(r) = r {
+                rec.outcome(hash_vec(r.data()));
+                let (p_out, bits_out) = glwe_phase(&r, &sk.clear);
+                let (worst, _, tot) = worst_err(&p_out, bits_out, &want, bits_in);
+                let slack = (log2_of(&bound.at(tot), tot) - log2_of(&worst, tot)).floor().clamp(0.0, 16.0) as u64;
+                rec.add(&format!("slack_bits_{slack:02}"), 1);
+            }
+        }
+    }
+}
+
+fn m2_small(n: usize) -> Vec<M2> {
+    vec![M2::XPow(1), M2::XPow(n + 3), dense_full(n, 0)]
+}
+
+fn m2_full(tier: Tier, n: usize) -> Vec<M2> {
+    let mut v = vec![M2::Zero, M2::One, M2::MinusOne];
+    v.extend((0..2 * n).map(M2::XPow));
+    if n == 8 && tier.is_thorough() {
+        // every polynomial with coefficients in {-1,0,1}
+        v.extend((0..3u32.pow(8)).map(M2::Dense));
+    } else {
+        v.extend((0..tier.pick(8, 64)).map(|k| dense_full(n, k)));
+        v.extend((0..tier.pick(8, 64)).map(|k| M2::Dense((Rng::new(0xD4, k).next() % 3u64.pow(n.min(20) as u32)) as u32)));
+    }
+    v
+}
+
+fn xp_cases<B: Bk>(tier: Tier) -> Vec<XpCase> {
+    let mut out = vec![];
+    let ns: Vec<usize> = tier.pick(vec![8], vec![8, 16]);
+    for op in ["glwe_external_product", "glwe_external_product_assign"] {
+        for shape in xp_shapes(tier, &ns, op.ends_with("_assign"), false) {
+            let m2s = m2_small(shape.n);
+            out.push(XpCase {
+                op: op.into(),
+                backend: B::NAME.into(),
+                shape,
+                m2s,
+            });
+        }
+    }
+    out
+}
+
+/// the complete m2 alphabet on a few shapes (split into chunks so that the work is spread over the cores)
+fn xp_m2_cases<B: Bk>(tier: Tier) -> Vec<XpCase> {
+    let mut out = vec![];
+    for n in [8usize, 16] {
+        let shapes: Vec<Shape> = xp_shapes(tier, &[n], false, true)
+            .into_iter()
+            .filter(|s| s.kprec == "above" && s.dnum_rel == "equal" && s.res_rel == "equal" && s.a_size == 5 && s.noise == NoiseCfg::Default)
+            .filter(|s| (s.b_in, s.b_key, s.b_out) == (12, 12, 12) || (s.b_in, s.b_key, s.b_out) == (10, 12, 8))
+            .filter(|s| tier.is_thorough() || s.rank_in + s.dsize <= 4)
+            .collect();
+        let all = m2_full(tier, n);
+        for (si, shape) in shapes.iter().enumerate() {
+            // the 3^8 dense enumeration only on two shapes
+            let m2s: Vec<M2> = if all.len() > 1000 && si % 12 != 0 { all.iter().copied().take(3 + 2 * n + 64).collect() } else { all.clone() };
+            for chunk in m2s.chunks(32) {
+                out.push(XpCase {
+                    op: "glwe_external_product".into(),
+                    backend: B::NAME.into(),
+                    shape: shape.clone(),
+                    m2s: chunk.to_vec(),
+                });
+            }
+        }
+    }
+    out
+}
+
+// ---------------------------------------------------------------------------------------------
+// family: GGLWE x GGSW, GGSW x GGSW (every cell)
+// ---------------------------------------------------------------------------------------------
+
+#[derive(Clone, Debug, Serialize, Deserialize)]
+pub struct MatXpCase {
+    pub op: String, // gglwe_external_product[_assign] | ggsw_external_product[_assign]
+    pub backend: String,
+    pub shape: Shape,
+    pub m2: M2,
+    /// gadget of the left operand / result
+    pub a_dnum: usize,
+    pub a_dsize: usize,
+    pub a_rank_in: usize,
+    pub res_dnum: usize,
+}
+
+/// uniform view over GGLWE / GGSW operands
+enum Mat {
+    Gglwe(GGLWE<Vec<u8>>),
+    Ggsw(GGSW<Vec<u8>>),
+}
+
+impl Mat {
+    fn at(&self, r: usize, c: usize) -> GLWE<&[u8]> {
+        match self {
+            Mat::Gglwe(g) => g.at(r, c),
+            Mat::Ggsw(g) => g.at(r, c),
+        }
+    }
+    fn bytes(&self) -> Vec<u8> {
+        match self {
+            Mat::Gglwe(g) => DataView::data(g.data()).clone(),
+            Mat::Ggsw(g) => ggsw_bytes(g),
+        }
+    }
+    fn fill_garbage(&mut self, which: usize) {
+        match self {
+            Mat::Gglwe(g) => garbage(DataViewMut::data_mut(g.data_mut()).as_mut_slice(), which),
+            Mat::Ggsw(g) => ggsw_garbage(g, which),
+        }
+    }
+    fn copy_from(&mut self, o: &Mat) {
+        match (self, o) {
+            (Mat::Gglwe(g), Mat::Gglwe(a)) => DataViewMut::data_mut(g.data_mut()).copy_from_slice(DataView::data(a.data())),
+            (Mat::Ggsw(g), Mat::Ggsw(a)) => ggsw_copy(g, a),
+            _ => unreachable!(),
+        }
+    }
+}
+
+pub fn exec_matxp<B: Bk>(c: &MatXpCase, seed: u64, rec: &mut Rec)
+where
+    Module<B>: HalAll<B> + CoreAll<B>,
+    Scratch<B>: ScratchTakeCore<B>,
+{
+    let s = &c.shape;
+    let n = s.n;
+    let rank = s.rank_in;
+    let assign = c.op.ends_with("_assign");
+    let is_ggsw = c.op.starts_with("ggsw");
+    let m = B::module(n);
+    let tag = fnv(format!("{:?}", c).as_bytes()) ^ seed;
+    rec.distinct(tag);
+    rec.sample(|| serde_json::to_value(c).unwrap());
+    let mut scr = Scr::new(2 * MIB, 0);
+    let sk = glwe_sk::<B>(&m, n, rank, Dist::TernaryProb, seed32(tag, 1));
+    let e2 = noise_e2(&noise_infos(s.noise, s.k_key));
+    let m2 = m2_poly(c.m2, n);
+    let fail = |rec: &mut Rec, kind: &str, inner: Value, extra: Value| rec.fail(mk_desc(&c.op, B::NAME, kind, c, s, inner, extra));
+    let (_, prep) = match make_ggsw::<B>(&m, s, &m2, &sk, &mut scr, tag) {
+        Ok(x) => x,
+        Err((kind, e)) => {
+            fail(rec, &kind, json!({}), e);
+            return;
+        }
+    };
+    // left operand: library encryption of small polynomials with its own gadget
+    let k_a = s.a_size * s.b_in;
+    let k_r = s.res_size * s.b_in;
+    let cols = if is_ggsw { rank + 1 } else { c.a_rank_in };
+    let mut rng = Rng::new(tag, 9);
+    let mut xe = Source::new(seed32(tag, 13));
+    let mut xa = Source::new(seed32(tag, 14));
+    let ni = noise_infos(s.noise, k_a);
+    let a_gglwe = GGLWELayout {
+        n: (n as u32).into(),
+        base2k: (s.b_in as u32).into(),
+        k: (k_a as u32).into(),
+        rank_in: (c.a_rank_in as u32).into(),
+        rank_out: (rank as u32).into(),
+        dnum: (c.a_dnum as u32).into(),
+        dsize: (c.a_dsize as u32).into(),
+    };
+    let r_gglwe = GGLWELayout {
+        k: (k_r as u32).into(),
+        dnum: (c.res_dnum as u32).into(),
+        ..a_gglwe
+    };
+    let a_ggsw = GGSWLayout {
+        n: (n as u32).into(),
+        base2k: (s.b_in as u32).into(),
+        k: (k_a as u32).into(),
+        rank: (rank as u32).into(),
+        dnum: (c.a_dnum as u32).into(),
+        dsize: (c.a_dsize as u32).into(),
+    };
+    let r_ggsw = GGSWLayout {
+        k: (k_r as u32).into(),
+        dnum: (c.res_dnum as u32).into(),
+        ..a_ggsw
+    };
+    let a: Mat = if is_ggsw {
+        let mut g = GGSW::alloc_from_infos(&a_ggsw);
+        let mut pt = ScalarZnx::alloc(n, 1);
+        for x in pt.at_mut(0, 0).iter_mut() {
+            *x = rng.range_i64(-1, 1);
+        }
+        scr.fill_prefix(0, SETUP_HOT);
+        if let Err(p) = guarded(|| m.ggsw_encrypt_sk(&mut g, &pt, &sk.prep, &ni, &mut xe, &mut xa, scr.get::<B>())) {
+            fail(rec, "panic", json!({"stage": "input_encrypt"}), json!({"panic": p}));
+            return;
+        }
+        Mat::Ggsw(g)
+    } else {
+        let mut g = GGLWE::alloc_from_infos(&a_gglwe);
+        let mut pt = ScalarZnx::alloc(n, c.a_rank_in);
+        for col in 0..c.a_rank_in {
+            for x in pt.at_mut(col, 0).iter_mut() {
+                *x = rng.range_i64(-1, 1);
+            }
+        }
+        scr.fill_prefix(0, SETUP_HOT);
+        if let Err(p) = guarded(|| m.gglwe_encrypt_sk(&mut g, &pt, &sk.prep, &ni, &mut xe, &mut xa, scr.get::<B>())) {
+            fail(rec, "panic", json!({"stage": "input_encrypt"}), json!({"panic": p}));
+            return;
+        }
+        Mat::Gglwe(g)
+    };
+    let hot = m.glwe_external_product_tmp_bytes(&glwe_layout(n, s.b_in, k_r, rank), &glwe_layout(n, s.b_in, k_a, rank), &ggsw_layout(s)) + HOT_SLACK;
+    let bound = {
+        let mut sb = s.clone();
+        sb.b_out = s.b_in;
+        xp_bound(&sb, e2, l1(&m2), 1)
+    };
+    let call = |fill: usize| -> Result<Mat, String> {
+        let mut res: Mat = match (&a, assign) {
+            (Mat::Ggsw(_), false) => Mat::Ggsw(GGSW::alloc_from_infos(&r_ggsw)),
+            (Mat::Ggsw(_), true) => Mat::Ggsw(GGSW::alloc_from_infos(&a_ggsw)),
+            (Mat::Gglwe(_), false) => Mat::Gglwe(GGLWE::alloc_from_infos(&r_gglwe)),
+            (Mat::Gglwe(_), true) => Mat::Gglwe(GGLWE::alloc_from_infos(&a_gglwe)),
+        };
+        if assign {
+            res.copy_from(&a);
+        } else {
+            res.fill_garbage(fill % 2);
+        }
+        scr.fill_prefix(fill, hot);
+        guarded(|| match (&mut res, &a) {
+            (Mat::Ggsw(r), Mat::Ggsw(aa)) => {
+                if assign {
+                    m.ggsw_external_product_assign(r, &prep, scr.get::<B>())
+                } else {
+                    m.ggsw_external_product(r, aa, &prep, scr.get::<B>())
+                }
+            }
+            (Mat::Gglwe(r), Mat::Gglwe(aa)) => {
+                if assign {
+                    m.gglwe_external_product_assign(r, &prep, scr.get::<B>())
+                } else {
+                    m.gglwe_external_product(r, aa, &prep, scr.get::<B>())
+                }
+            }
+            _ => unreachable!(),
+        })?;
+        Ok(res)
+    };
+    let rows_res = if assign { c.a_dnum } else { c.res_dnum };
+    let verdict = |res: &Mat| -> Result<(), (String, Value)> {
+        for row in 0..rows_res {
+            for col in 0..cols {
+                let (p_out, bits_out) = glwe_phase(&res.at(row, col), &sk.clear);
+                if row >= c.a_dnum {
+                    // rows the left operand does not have: documented to be zeroed
+                    let cell = res.at(row, col);
+                    if hash_vec(cell.data()) != hash_vec(glwe_zeroed(n, s.b_in, k_r, rank).data()) {
+                        return Err(("stale_output".into(), json!({"row": row, "col": col, "why": "row beyond a.dnum() is not zero"})));
+                    }
+                    continue;
+                }
+                let (p_in, bits_in) = glwe_phase(&a.at(row, col), &sk.clear);
+                let want = mul_m2(&p_in, &m2);
+                let (worst, wi, tot) = worst_err(&p_out, bits_out, &want, bits_in);
+                let limit = bound.at(tot);
+                if worst > limit {
+                    return Err((
+                        "noise_too_large".into(),
+                        json!({"row": row, "col": col, "index": wi, "err_log2": log2_of(&worst, tot), "bound_log2": log2_of(&limit, tot), "bound_terms": bound.describe()}),
+                    ));
+                }
+            }
+        }
+        Ok(())
+    };
+    rec.evals(2 * (rows_res * cols) as u64);
+    let extra_fields = json!({"res_dnum_rel": if c.res_dnum < c.a_dnum { "less" } else if c.res_dnum == c.a_dnum { "equal" } else { "more" }});
+    two_runs((tag % 2) as usize, call, verdict, |r: &Mat| r.bytes(), |kind, mut extra| {
+        if let (Value::Object(e), Value::Object(x)) = (&mut extra, extra_fields.clone()) {
+            e.extend(x);
+        }
+        rec.fail(mk_desc(&c.op, B::NAME, kind, c, s, json!({}), extra))
+    });
+}
+
+fn matxp_cases<B: Bk>(tier: Tier) -> Vec<MatXpCase> {
+    let mut out = vec![];
+    for n in tier.pick(vec![8], vec![8, 16]) {
+        for op in ["gglwe_external_product", "gglwe_external_product_assign", "ggsw_external_product", "ggsw_external_product_assign"] {
+            let assign = op.ends_with("_assign");
+            // the matrix forms require res.base2k == a.base2k
+            for shape in xp_shapes(tier, &[n], assign, true).into_iter().filter(|s| s.b_in == s.b_out) {
+                for (a_rank_in, a_dsize) in tier.pick(vec![(1usize, 1usize), (2, 2)], vec![(1, 1), (2, 1), (2, 2), (3, 3)]) {
+                    if op.starts_with("ggsw") && a_rank_in != 1 {
+                        continue;
+                    }
+                    if shape.a_size <= a_dsize {
+                        continue;
+                    }
+                    let a_dnum = shape.a_size / a_dsize;
+                    let res_dnums: Vec<usize> = if assign { vec![a_dnum] } else { vec![a_dnum, a_dnum.saturating_sub(1), a_dnum + 1].into_iter().filter(|d| *d > 0).collect() };
+                    for res_dnum in res_dnums {
+                        let mut shape = shape.clone();
+                        if !assign {
+                            shape.res_size = shape.res_size.max(a_dsize + 1).max(res_dnum * a_dsize);
+                        }
+                        for m2 in [M2::XPow(n + 1), dense_full(n, 1)] {
+                            out.push(MatXpCase {
+                                op: op.into(),
+                                backend: B::NAME.into(),
+                                shape: shape.clone(),
+                                m2,
+                                a_dnum,
+                                a_dsize,
+                                a_rank_in,
+                                res_dnum,
+                            });
+                        }
+                    }
+                }
+            }
+        }
+    }
+    out
+}
+
+// ---------------------------------------------------------------------------------------------
+// family: CMux / CSwap
+// ---------------------------------------------------------------------------------------------
+
+#[derive(Clone, Debug, Serialize, Deserialize)]
+pub struct CmuxCase {
+    pub op: String, // cmux | cmux_assign | cmux_assign_neg | cswap
+    pub backend: String,
+    pub shape: Shape,
+}
+
+pub fn exec_cmux<B: Bk>(c: &CmuxCase, seed: u64, tier: Tier, rec: &mut Rec)
+where
+    Module<B>: HalAll<B> + CoreAll<B> + Cmux<B> + Cswap<B>,
+    Scratch<B>: ScratchTakeCore<B>,
+{
+    let s = &c.shape;
+    let n = s.n;
+    let rank = s.rank_in;
+    let m = B::module(n);
+    let tag = fnv(format!("{:?}", c).as_bytes()) ^ seed;
+    rec.distinct(tag);
+    rec.sample(|| serde_json::to_value(c).unwrap());
+    let mut scr = Scr::new(2 * MIB, 0);
+    let sk = glwe_sk::<B>(&m, n, rank, Dist::TernaryProb, seed32(tag, 1));
+    let e2 = noise_e2(&noise_infos(s.noise, s.k_key));
+    let lay = glwe_layout(n, s.b_in, s.k_in(), rank);
+    let r_lay = glwe_layout(n, s.b_out, s.k_out(), rank);
+    let hot = m
+        .cmux_tmp_bytes(&r_lay, &lay, &ggsw_layout(s))
+        .max(m.cswap_tmp_bytes(&lay, &lay, &ggsw_layout(s)))
+        + HOT_SLACK;
+    let noise_in = noise_infos(s.noise, s.k_in());
+    // the decomposed operand is the un-normalised difference of two ciphertexts: digits up to 2^b
+    let mut bound = xp_bound(s, e2, 1, 2);
+    // the other input is added in the GGSW radix before the final normalisation
+    if s.a_conv_size() > s.key_size() {
+        bound.plus(&ulp_phase(n, rank, s.key_size(), s.b_key, "operand_cut_to_ggsw_size"));
+    }
+    let mut total = bound.clone();
+    total.add_u(noise_e2(&noise_in) * 3, s.k_in() + 1, "input_noise");
+    let kp = pick_kp(&total, 8.min(s.b_in));
+    rec.add(if kp.is_some() { "cases_with_rounded_plaintext_check" } else { "cases_bound_only" }, 1);
+    let pairs: Vec<(Input, Input)> = if tier.is_thorough() {
+        vec![
+            (Input::Enc(Msg::Ramp), Input::Enc(Msg::Alt)),
+            (Input::Enc(Msg::MaxPos), Input::Enc(Msg::MinNeg)),
+            (Input::Enc(Msg::MinNeg), Input::Enc(Msg::MaxPos)),
+            (Input::Raw(Raw::MaxPos), Input::Raw(Raw::MinNeg)),
+            (Input::Raw(Raw::Alt), Input::Raw(Raw::Random(0))),
+        ]
+    } else {
+        vec![(Input::Enc(Msg::MaxPos), Input::Enc(Msg::MinNeg)), (Input::Raw(Raw::MaxPos), Input::Raw(Raw::MinNeg))]
+    };
+    for bit in [0i64, 1] {
+        let m2 = m2_poly(if bit == 1 { M2::One } else { M2::Zero }, n);
+        let (_, prep) = match make_ggsw::<B>(&m, s, &m2, &sk, &mut scr, tag ^ bit as u64) {
+            Ok(x) => x,
+            Err((kind, e)) => {
+                rec.fail(mk_desc(&c.op, B::NAME, &kind, c, s, json!({"bit": bit}), e));
+                continue;
+            }
+        };
+        for (it, if_) in &pairs {
+            let inner = json!({"bit": bit, "t": it, "f": if_});
+            let ih = fnv(inner.to_string().as_bytes());
+            let mut mk = |inp: &Input, salt: u64| -> Result<(GLWE<Vec<u8>>, Option<Vec<i64>>), String> {
+                let mut ct = glwe_zeroed(n, s.b_in, s.k_in(), rank);
+                match inp {
+                    Input::Enc(mc) => {
+                        let kpp = kp.unwrap_or(1);
+                        let mv = message(*mc, n, kpp, seed ^ salt);
+                        let pt = plaintext(n, s.b_in, s.k_in(), &mv, kpp);
+                        let mut xe = Source::new(seed32(tag ^ ih ^ salt, 5));
+                        let mut xa = Source::new(seed32(tag ^ ih ^ salt, 6));
+                        scr.fill_prefix(0, SETUP_HOT);
+                        guarded(|| m.glwe_encrypt_sk(&mut ct, &pt, &sk.prep, &noise_in, &mut xe, &mut xa, scr.get::<B>()))?;
+                        Ok((ct, kp.map(|_| mv)))
+                    }
+                    Input::Raw(rc) => {
+                        fill_raw(ct.data_mut(), s.b_in, *rc, seed ^ salt);
+                        Ok((ct, None))
+                    }
+                }
+            };
+            let (ct_t, msg_t) = match mk(it, 1) {
+                Ok(x) => x,
+                Err(p) => {
+                    rec.fail(mk_desc(&c.op, B::NAME, "panic", c, s, inner, json!({"stage": "input_encrypt", "panic": p})));
+                    continue;
+                }
+            };
+            let (ct_f, msg_f) = match mk(if_, 2) {
+                Ok(x) => x,
+                Err(p) => {
+                    rec.fail(mk_desc(&c.op, B::NAME, "panic", c, s, inner, json!({"stage": "input_encrypt", "panic": p})));
+                    continue;
+                }
+            };
+            let (p_t, bits_in) = glwe_phase(&ct_t, &sk.clear);
+            let (p_f, _) = glwe_phase(&ct_f, &sk.clear);
+            // results: cmux -> [res]; cswap -> [res_a, res_b]
+            // expected selections, by the documented formulas:
+            //   cmux(res,t,f,s)          = (t - f) s + f      : bit ? t : f
+            //   cmux_assign(res,a,s)     = (res - a) s + a    : bit ? res : a      (res := t, a := f)
+            //   cmux_assign_neg(res,a,s) = (a - res) s + res  : bit ? a : res      (res := t, a := f)
+            //   cswap(a,b,s)             : bit ? (b,a) : (a,b)                      (a := t, b := f)
+            let sel_t = (&p_t, &msg_t, "t");
+            let sel_f = (&p_f, &msg_f, "f");
+            let expect: Vec<(&Vec<IBig>, &Option<Vec<i64>>, &str)> = match c.op.as_str() {
+                "cmux" | "cmux_assign" => vec![if bit == 1 { sel_t } else { sel_f }],
+                "cmux_assign_neg" => vec![if bit == 1 { sel_f } else { sel_t }],
+                "cswap" => {
+                    if bit == 1 {
+                        vec![sel_f, sel_t]
+                    } else {
+                        vec![sel_t, sel_f]
+                    }
+                }
+                o => panic!("unknown op {o}"),
+            };
+            let call = |fill: usize| -> Result<Vec<GLWE<Vec<u8>>>, String> {
+                scr.fill_prefix(fill, hot);
+                match c.op.as_str() {
+                    "cmux" => {
+                        let mut res = garbage_glwe(n, s.b_out, s.k_out(), rank, fill % 2);
+                        guarded(|| m.cmux(&mut res, &ct_t, &ct_f, &prep, scr.get::<B>()))?;
+                        Ok(vec![res])
+                    }
+                    "cmux_assign" => {
+                        let mut res = glwe_clone(&ct_t);
+                        guarded(|| m.cmux_assign(&mut res, &ct_f, &prep, scr.get::<B>()))?;
+                        Ok(vec![res])
+                    }
+                    "cmux_assign_neg" => {
+                        let mut res = glwe_clone(&ct_t);
+                        guarded(|| m.cmux_assign_neg(&mut res, &ct_f, &prep, scr.get::<B>()))?;
+                        Ok(vec![res])
+                    }
+                    _ => {
+                        let mut ra = glwe_clone(&ct_t);
+                        let mut rb = glwe_clone(&ct_f);
+                        guarded(|| m.cswap(&mut ra, &mut rb, &prep, scr.get::<B>()))?;
+                        Ok(vec![ra, rb])
+                    }
+                }
+            };
+            let verdict = |res: &Vec<GLWE<Vec<u8>>>| -> Result<(), (String, Value)> {
+                for (ri, r) in res.iter().enumerate() {
+                    let (p_out, bits_out) = glwe_phase(r, &sk.clear);
+                    let (want, wmsg, which) = expect[ri];
+                    let (worst, wi, tot) = worst_err(&p_out, bits_out, want, bits_in);
+                    let limit = bound.at(tot);
+                    if worst > limit {
+                        // does it match the OTHER input instead?
+                        let other = if which == "t" { &p_f } else { &p_t };
+                        let swapped = worst_err(&p_out, bits_out, other, bits_in).0 <= limit;
+                        return Err((
+                            if swapped { "wrong_selection".into() } else { "noise_too_large".into() },
+                            json!({"result": ri, "expected": which, "index": wi, "err_log2": log2_of(&worst, tot), "bound_log2": log2_of(&limit, tot), "bound_terms": bound.describe()}),
+                        ));
+                    }
+                    if let (Some(mv), Some(kpp)) = (wmsg, kp) {
+                        let got_m: Vec<i64> = p_out.iter().map(|x| round_to(x, bits_out, kpp)).collect();
+                        if &got_m != mv {
+                            return Err(("wrong_plaintext".into(), json!({"result": ri, "expected": which, "kp": kpp, "got": got_m, "want": mv})));
+                        }
+                    }
+                }
+                Ok(())
+            };
+            rec.evals(2);
+            two_runs(
+                (ih % 2) as usize,
+                call,
+                verdict,
+                |r: &Vec<GLWE<Vec<u8>>>| r.iter().flat_map(|x| x.data().data.clone()).collect(),
+                |kind, extra| rec.fail(mk_desc(&c.op, B::NAME, kind, c, s, inner.clone(), extra)),
+            );
+        }
+    }
+}
+
+fn cmux_cases<B: Bk>(tier: Tier) -> Vec<CmuxCase> {
+    let mut out = vec![];
+    for n in tier.pick(vec![8], vec![8, 16]) {
+        for op in ["cmux", "cmux_assign", "cmux_assign_neg", "cswap"] {
+            let inplace = op != "cmux";
+            for shape in xp_shapes(tier, &[n], inplace, !tier.is_thorough()) {
+                // CMux adds an input to the product in the GGSW radix and the product routine asserts equal radices:
+                // the admissible domain is b_in == b_ggsw (== b_out for the in-place forms); cswap documents a
+                // separate branch for res radix != GGSW radix, which is exercised
+                let eq = shape.b_in == shape.b_key;
+                if !eq && op != "cswap" {
+                    continue;
+                }
+                if op == "cmux" && shape.b_out != shape.b_in {
+                    continue;
+                }
+                out.push(CmuxCase {
+                    op: op.into(),
+                    backend: B::NAME.into(),
+                    shape,
+                });
+            }
+        }
+    }
+    out
+}
+
+// ---------------------------------------------------------------------------------------------
+// family: GGSW from GGLWE / expand rows / GGSW key switch / GGSW automorphism: every cell
+// ---------------------------------------------------------------------------------------------
+
+#[derive(Clone, Debug, Serialize, Deserialize)]
+pub struct GgswConvCase {
+    pub op: String, // ggsw_from_gglwe | ggsw_expand_row | ggsw_keyswitch[_assign] | ggsw_automorphism[_assign]
+    pub backend: String,
+    /// gadget of the switching / automorphism key AND of the tensor key (rank_in = rank_out = rank); b_in = radix of the GGSW
+    pub shape: Shape,
+    /// gadget of the GGSW itself
+    pub g_dnum: usize,
+    pub g_dsize: usize,
+    pub res_dnum: usize,
+    pub m2: M2,
+    pub g: i64,
+}
+
+pub fn exec_ggsw_conv<B: Bk>(c: &GgswConvCase, seed: u64, rec: &mut Rec)
+where
+    Module<B>: HalAll<B> + CoreAll<B>,
+    Scratch<B>: ScratchTakeCore<B>,
+{
+    let s = &c.shape;
+    let n = s.n;
+    let rank = s.rank_in;
+    let m = B::module(n);
+    let tag = fnv(format!("{:?}", c).as_bytes()) ^ seed;
+    rec.distinct(tag);
+    rec.sample(|| serde_json::to_value(c).unwrap());
+    let mut scr = Scr::new(2 * MIB, 0);
+    let fail = |rec: &mut Rec, kind: &str, inner: Value, extra: Value| rec.fail(mk_desc(&c.op, B::NAME, kind, c, s, inner, extra));
+    let is_ks = c.op.starts_with("ggsw_keyswitch");
+    let is_auto = c.op.starts_with("ggsw_automorphism");
+    let assign = c.op.ends_with("_assign");
+    let sk_in = glwe_sk::<B>(&m, n, rank, Dist::TernaryProb, seed32(tag, 1));
+    let sk_out = if is_ks { glwe_sk::<B>(&m, n, rank, Dist::TernaryProb, seed32(tag, 2)) } else { glwe_sk::<B>(&m, n, rank, Dist::TernaryProb, seed32(tag, 1)) };
+    let noise_key = noise_infos(s.noise, s.k_key);
+    let e2 = noise_e2(&noise_key);
+    let mut xe = Source::new(seed32(tag, 3));
+    let mut xa = Source::new(seed32(tag, 4));
+    let m2 = m2_poly(c.m2, n);
+    let k_a = s.a_size * s.b_in;
+    let k_r = s.res_size * s.b_in;
+
+    // tensor key of the TARGET secret (rows: s_i * s_j)
+    let tsk_lay = GGLWEToGGSWKeyLayout {
+        n: (n as u32).into(),
+        base2k: (s.b_key as u32).into(),
+        k: (s.k_key as u32).into(),
+        rank: (rank as u32).into(),
+        dnum: (s.dnum as u32).into(),
+        dsize: (s.dsize as u32).into(),
+    };
+    let mut tsk = GGLWEToGGSWKey::alloc_from_infos(&tsk_lay);
+    scr.fill_prefix(0, SETUP_HOT);
+    if let Err(p) = guarded(|| GGLWEToGGSWKeyEncryptSk::gglwe_to_ggsw_key_encrypt_sk(&m, &mut tsk, &sk_out.sk, &noise_key, &mut xe, &mut xa, scr.get::<B>())) {
+        fail(rec, "panic", json!({"stage": "tsk_encrypt"}), json!({"panic": p}));
+        return;
+    }
+    for i in 0..rank {
+        // tsk.at(i) encrypts s_i * s_j (column j) under s
+        let pts: Vec<Vec<i64>> = (0..rank)
+            .map(|j| {
+                let a: Vec<i128> = sk_out.clear[i].iter().map(|&x| x as i128).collect();
+                let b: Vec<i128> = sk_out.clear[j].iter().map(|&x| x as i128).collect();
+                ring::negacyclic_mul_i128(&a, &b).iter().map(|&x| x as i64).collect()
+            })
+            .collect();
+        if let Err(e) = check_key_rows(tsk.at(i), &pts, &sk_out.clear, e2, s.k_key) {
+            fail(rec, "key_noise_too_large", json!({"stage": "tsk_rows", "tsk_index": i}), e);
+            return;
+        }
+    }
+    let mut tsk_prep = m.gglwe_to_ggsw_key_prepared_alloc_from_infos(&tsk_lay);
+    scr.fill_prefix(0, SETUP_HOT);
+    if let Err(p) = guarded(|| m.gglwe_to_ggsw_key_prepare(&mut tsk_prep, &tsk, scr.get::<B>())) {
+        fail(rec, "panic", json!({"stage": "tsk_prepare"}), json!({"panic": p}));
+        return;
+    }
+
+    // switching / automorphism key
+    enum Key<B: Bk> {
+        None,
+        Ks(poulpy_core::layouts::GLWESwitchingKeyPrepared<DeviceBuf<B>, B>),
+        Atk(poulpy_core::layouts::GLWEAutomorphismKeyPrepared<DeviceBuf<B>, B>),
+    }
+    let key: Key<B> = if is_ks {
+        let lay = GLWESwitchingKeyLayout {
+            n: (n as u32).into(),
+            base2k: (s.b_key as u32).into(),
+            k: (s.k_key as u32).into(),
+            rank_in: (rank as u32).into(),
+            rank_out: (rank as u32).into(),
+            dnum: (s.dnum as u32).into(),
+            dsize: (s.dsize as u32).into(),
+        };
+        let mut ksk = GLWESwitchingKey::alloc_from_infos(&lay);
+        scr.fill_prefix(0, SETUP_HOT);
+        if let Err(p) = guarded(|| m.glwe_switching_key_encrypt_sk(&mut ksk, &sk_in.sk, &sk_out.sk, &noise_key, &mut xe, &mut xa, scr.get::<B>())) {
+            fail(rec, "panic", json!({"stage": "key_encrypt"}), json!({"panic": p}));
+            return;
+        }
+        let mut prep = m.glwe_switching_key_prepared_alloc_from_infos(&lay);
+        scr.fill_prefix(0, SETUP_HOT);
+        if let Err(p) = guarded(|| m.glwe_switching_key_prepare(&mut prep, &ksk, scr.get::<B>())) {
+            fail(rec, "panic", json!({"stage": "key_prepare"}), json!({"panic": p}));
+            return;
+        }
+        Key::Ks(prep)
+    } else if is_auto {
+        let lay = GLWEAutomorphismKeyLayout {
+            n: (n as u32).into(),
+            base2k: (s.b_key as u32).into(),
+            k: (s.k_key as u32).into(),
+            rank: (rank as u32).into(),
+            dnum: (s.dnum as u32).into(),
+            dsize: (s.dsize as u32).into(),
+        };
+        let mut atk = GLWEAutomorphismKey::alloc_from_infos(&lay);
+        scr.fill_prefix(0, SETUP_HOT);
+        if let Err(p) = guarded(|| m.glwe_automorphism_key_encrypt_sk(&mut atk, c.g, &sk_in.sk, &noise_key, &mut xe, &mut xa, scr.get::<B>())) {
+            fail(rec, "panic", json!({"stage": "key_encrypt"}), json!({"panic": p}));
+            return;
+        }
+        let mut prep = m.glwe_automorphism_key_prepared_alloc_from_infos(&lay);
+        scr.fill_prefix(0, SETUP_HOT);
+        if let Err(p) = guarded(|| m.glwe_automorphism_key_prepare(&mut prep, &atk, scr.get::<B>())) {
+            fail(rec, "panic", json!({"stage": "key_prepare"}), json!({"panic": p}));
+            return;
+        }
+        Key::Atk(prep)
+    } else {
+        Key::None
+    };
+
+    // the input: a GGSW (key switch / automorphism / expand_row) or a GGLWE with one plaintext column (from_gglwe)
+    let a_ggsw = GGSWLayout {
+        n: (n as u32).into(),
+        base2k: (s.b_in as u32).into(),
+        k: (k_a as u32).into(),
+        rank: (rank as u32).into(),
+        dnum: (c.g_dnum as u32).into(),
+        dsize: (c.g_dsize as u32).into(),
+    };
+    let r_ggsw = GGSWLayout {
+        k: (k_r as u32).into(),
+        dnum: (c.res_dnum as u32).into(),
+        ..a_ggsw
+    };
+    let ni = noise_infos(s.noise, k_a);
+    let e2_in = noise_e2(&ni);
+    let mut pt = ScalarZnx::alloc(n, 1);
+    pt.at_mut(0, 0).copy_from_slice(&m2);
+    let mut a_g: Option<GGSW<Vec<u8>>> = None;
+    let mut a_l: Option<GGLWE<Vec<u8>>> = None;
+    if c.op == "ggsw_from_gglwe" {
+        let lay = GGLWELayout {
+            n: (n as u32).into(),
+            base2k: (s.b_in as u32).into(),
+            k: (k_a as u32).into(),
+            rank_in: 1u32.into(),
+            rank_out: (rank as u32).into(),
+            dnum: (c.g_dnum as u32).into(),
+            dsize: (c.g_dsize as u32).into(),
+        };
+        let mut g = GGLWE::alloc_from_infos(&lay);
+        scr.fill_prefix(0, SETUP_HOT);
+        if let Err(p) = guarded(|| m.gglwe_encrypt_sk(&mut g, &pt, &sk_in.prep, &ni, &mut xe, &mut xa, scr.get::<B>())) {
+            fail(rec, "panic", json!({"stage": "input_encrypt"}), json!({"panic": p}));
+            return;
+        }
+        a_l = Some(g);
+    } else {
+        let mut g = GGSW::alloc_from_infos(&a_ggsw);
+        scr.fill_prefix(0, SETUP_HOT);
+        if let Err(p) = guarded(|| m.ggsw_encrypt_sk(&mut g, &pt, &sk_in.prep, &ni, &mut xe, &mut xa, scr.get::<B>())) {
+            fail(rec, "panic", json!({"stage": "input_encrypt"}), json!({"panic": p}));
+            return;
+        }
+        if c.op == "ggsw_expand_row" {
+            // only column 0 is an input of the expansion: the other columns start as garbage
+            for row in 0..c.g_dnum {
+                for col in 1..=rank {
+                    garbage(g.at_mut(row, col).data_mut().data, 0);
+                }
+            }
+        }
+        a_g = Some(g);
+    }
+    let tsk_gl = GGLWELayout {
+        n: (n as u32).into(),
+        base2k: (s.b_key as u32).into(),
+        k: (s.k_key as u32).into(),
+        rank_in: (rank as u32).into(),
+        rank_out: (rank as u32).into(),
+        dnum: (s.dnum as u32).into(),
+        dsize: (s.dsize as u32).into(),
+    };
+    let hot = m
+        .ggsw_keyswitch_tmp_bytes(&r_ggsw, &a_ggsw, &tsk_gl, &tsk_gl)
+        .max(m.ggsw_automorphism_tmp_bytes(&r_ggsw, &a_ggsw, &tsk_gl, &tsk_gl))
+        .max(m.ggsw_expand_rows_tmp_bytes(&r_ggsw, &tsk_gl))
+        .max(m.ggsw_from_gglwe_tmp_bytes(&r_ggsw, &tsk_gl))
+        + HOT_SLACK;
+
+    // bounds.  column 0: one key switch of the input cell (none for from_gglwe / expand_row);
+    //          column j: gadget product of the masks of the (new) column-0 cell with the tensor-key rows s_{j-1} s_i
+    let res_size_eff = if assign || c.op == "ggsw_expand_row" { s.a_size } else { s.res_size };
+    let col0_bound = {
+        let mut sb = s.clone();
+        sb.b_out = s.b_in;
+        sb.res_size = res_size_eff;
+        sb.bound(e2, 0)
+    };
+    let expand_bound = {
+        let conv = (res_size_eff * s.b_in).div_ceil(s.b_key);
+        let g = Gadget {
+            n,
+            cols_in: rank,
+            a_size: conv,
+            b_key: s.b_key,
+            dsize: s.dsize,
+            dnum: s.dnum,
+            key_size: s.key_size(),
+            k_noise: s.k_key,
+            e2,
+            pt_l1: (n * n) as u128,
+        };
+        let mut b = g.bound();
+        b.plus(&ulp_phase(n, rank, res_size_eff, s.b_in, "result_rounding"));
+        if conv > s.key_size() {
+            b.plus(&ulp_phase(n, rank, s.key_size(), s.b_key, "operand_cut_to_key_size"));
+        }
+        b
+    };
+    let in_cell = |row: usize| -> GLWE<&[u8]> {
+        match (&a_g, &a_l) {
+            (Some(g), _) => g.at(row, 0),
+            (_, Some(g)) => g.at(row, 0),
+            _ => unreachable!(),
+        }
+    };
+    let rows_res = if assign || c.op == "ggsw_expand_row" { c.g_dnum } else { c.res_dnum };
+    let call = |fill: usize| -> Result<GGSW<Vec<u8>>, String> {
+        let inplace = assign || c.op == "ggsw_expand_row";
+        let mut res = GGSW::alloc_from_infos(if inplace { &a_ggsw } else { &r_ggsw });
+        if inplace {
+            ggsw_copy(&mut res, a_g.as_ref().unwrap());
+        } else {
+            ggsw_garbage(&mut res, fill % 2);
+        }
+        scr.fill_prefix(fill, hot);
+        guarded(|| match (c.op.as_str(), &key) {
+            ("ggsw_from_gglwe", _) => m.ggsw_from_gglwe(&mut res, a_l.as_ref().unwrap(), &tsk_prep, scr.get::<B>()),
+            ("ggsw_expand_row", _) => m.ggsw_expand_row(&mut res, &tsk_prep, scr.get::<B>()),
+            ("ggsw_keyswitch", Key::Ks(k)) => m.ggsw_keyswitch(&mut res, a_g.as_ref().unwrap(), k, &tsk_prep, scr.get::<B>()),
+            ("ggsw_keyswitch_assign", Key::Ks(k)) => m.ggsw_keyswitch_assign(&mut res, k, &tsk_prep, scr.get::<B>()),
+            ("ggsw_automorphism", Key::Atk(k)) => m.ggsw_automorphism(&mut res, a_g.as_ref().unwrap(), k, &tsk_prep, scr.get::<B>()),
+            ("ggsw_automorphism_assign", Key::Atk(k)) => m.ggsw_automorphism_assign(&mut res, k, &tsk_prep, scr.get::<B>()),
+            (o, _) => panic!("unknown op {o}"),
+        })?;
+        Ok(res)
+    };
+    let m2_img: Vec<i64> = if is_auto { ring::automorphism(&m2, c.g) } else { m2.clone() };
+    let verdict = |res: &GGSW<Vec<u8>>| -> Result<(), (String, Value)> {
+        for row in 0..rows_res {
+            // column 0 against the image of the input cell's exact phase
+            let (p_in, bits_in) = glwe_phase(&in_cell(row), &sk_in.clear);
+            let want0 = if is_auto { auto_big(&p_in, c.g) } else { p_in.clone() };
+            let (p0, bits0) = glwe_phase(&res.at(row, 0), &sk_out.clear);
+            let (worst, wi, tot) = worst_err(&p0, bits0, &want0, bits_in);
+            let limit = col0_bound.at(tot);
+            if worst > limit {
+                return Err((
+                    "noise_too_large".into(),
+                    json!({"row": row, "col": 0, "index": wi, "err_log2": log2_of(&worst, tot), "bound_log2": log2_of(&limit, tot), "bound_terms": col0_bound.describe()}),
+                ));
+            }
+            // column 0 against m2 * gadget(row): input encryption noise + the switch
+            let gexp = (row + 1) * c.g_dsize * s.b_in;
+            let mut abs0 = col0_bound.clone();
+            abs0.add_u(e2_in, k_a + 1, "input_noise");
+            let want_abs: Vec<IBig> = m2_img.iter().map(|&x| IBig::from(x)).collect();
+            let (worst, wi, tot) = worst_err(&p0, bits0, &want_abs, gexp);
+            if worst > abs0.at(tot) {
+                return Err(("wrong_plaintext".into(), json!({"row": row, "col": 0, "index": wi, "err_log2": log2_of(&worst, tot), "why": "cell does not hold m2 * gadget(row)"})));
+            }
+            // column j >= 1 against s_{j-1} * phase(column 0)
+            for col in 1..=rank {
+                let (pj, bitsj) = glwe_phase(&res.at(row, col), &sk_out.clear);
+                let wantj = mul_small(&p0, &sk_out.clear[col - 1]);
+                let (worst, wi, tot) = worst_err(&pj, bitsj, &wantj, bits0);
+                let limit = expand_bound.at(tot);
+                if worst > limit {
+                    return Err((
+                        "noise_too_large".into(),
+                        json!({"row": row, "col": col, "index": wi, "err_log2": log2_of(&worst, tot), "bound_log2": log2_of(&limit, tot), "bound_terms": expand_bound.describe()}),
+                    ));
+                }
+            }
+        }
+        Ok(())
+    };
+    rec.evals(2 * (rows_res * (rank + 1)) as u64);
+    let extra_fields = json!({"res_dnum_rel": if c.res_dnum < c.g_dnum { "less" } else { "equal" }, "g_dsize": c.g_dsize, "g_dnum": c.g_dnum});
+    two_runs(
+        (tag % 2) as usize,
+        call,
+        verdict,
+        |r: &GGSW<Vec<u8>>| ggsw_bytes(r),
+        |kind, mut extra| {
+            if let (Value::Object(e), Value::Object(x)) = (&mut extra, extra_fields.clone()) {
+                e.extend(x);
+            }
+            rec.fail(mk_desc(&c.op, B::NAME, kind, c, s, json!({}), extra))
+        },
+    );
+}
+
+fn ggsw_conv_cases<B: Bk>(tier: Tier, ops: &[&str]) -> Vec<GgswConvCase> {
+    let mut out = vec![];
+    for n in tier.pick(vec![8], vec![8, 16]) {
+        for &op in ops {
+            let assign = op.ends_with("_assign") || op == "ggsw_expand_row";
+            for shape in crate::c03::shapes_for_composite(tier, n, assign) {
+                if shape.kprec == "below" {
+                    continue;
+                }
+                // N = 16 (thorough tier only): default noise, the longer input, GGSW digit sizes 1..2
+                if n == 16 && (shape.noise != NoiseCfg::Default || shape.a_size != 5) {
+                    continue;
+                }
+                for g_dsize in if tier.is_thorough() && n == 8 { vec![1usize, 2, 3] } else { vec![1usize, 2] } {
+                    if shape.a_size <= g_dsize {
+                        continue;
+                    }
+                    let g_dnum = shape.a_size / g_dsize;
+                    let res_dnums: Vec<usize> = if assign || op == "ggsw_from_gglwe" { vec![g_dnum] } else { vec![g_dnum, g_dnum.saturating_sub(1)].into_iter().filter(|d| *d > 0).collect() };
+                    for res_dnum in res_dnums {
+                        let mut shape = shape.clone();
+                        if !assign {
+                            shape.res_size = shape.res_size.max(g_dsize + 1).max(res_dnum * g_dsize);
+                        }
+                        let gs: Vec<i64> = if op.starts_with("ggsw_automorphism") { tier.pick(vec![5], vec![5, -1, 2 * n as i64 - 1]) } else { vec![1] };
+                        for g in gs {
+                            for m2 in tier.pick(vec![dense_full(n, 2)], vec![M2::XPow(n - 1), dense_full(n, 2)]) {
+                                out.push(GgswConvCase {
+                                    op: op.into(),
+                                    backend: B::NAME.into(),
+                                    shape: shape.clone(),
+                                    g_dnum,
+                                    g_dsize,
+                                    res_dnum,
+                                    m2,
+                                    g,
+                                });
+                            }
+                        }
+                    }
+                }
+            }
+        }
+    }
+    out
+}
+
+// ---------------------------------------------------------------------------------------------
+// families
+// ---------------------------------------------------------------------------------------------
+
+fn fam_xp<B: Bk>(run: &mut Run)
+where
+    Module<B>: HalAll<B> + CoreAll<B>,
+    Scratch<B>: ScratchTakeCore<B>,
+{
+    let (seed, tier) = (run.seed, run.tier);
+    run.family(
+        &format!("glwe_external_product/{}", B::NAME),
+        "outer = (out-of-place | assign, N, rank 1..3, dsize 1..4, a_size 1..6, dnum 1..needed+1, GGSW precision min/above, (b_in,b_ggsw,b_out), result shorter/equal/longer, noise cfg); inner = m2 in {X, -X^3, dense ternary} x inputs (library encryptions of extreme messages + raw extreme ciphertexts) x {zero-filled, garbage-filled scratch}",
+        xp_cases::<B>(tier),
+        |c, rec| exec_xp::<B>(c, None, seed, tier, rec),
+    );
+    run.family(
+        &format!("glwe_external_product_m2/{}", B::NAME),
+        "outer = (shape from a reduced set, chunk of the m2 alphabet); m2 alphabet = {0, 1, -1, X^k for EVERY k in [0,2N), dense ternary polynomials (all 3^8 at N=8 in the thorough tier)}",
+        xp_m2_cases::<B>(tier),
+        |c, rec| exec_xp::<B>(c, None, seed, tier, rec),
+    );
+}
+
+fn fam_matxp<B: Bk>(run: &mut Run)
+where
+    Module<B>: HalAll<B> + CoreAll<B>,
+    Scratch<B>: ScratchTakeCore<B>,
+{
+    let seed = run.seed;
+    let tier = run.tier;
+    run.family(
+        &format!("matrix_external_product/{}", B::NAME),
+        "outer = (gglwe | ggsw external product, out-of-place | assign, GGSW gadget shape, gadget of the left operand, res.dnum less/equal/more than a.dnum, m2); every cell (row, col) of the result against m2 * exact phase of the input cell; extra rows must be zero",
+        matxp_cases::<B>(tier),
+        |c, rec| exec_matxp::<B>(c, seed, rec),
+    );
+}
+
+fn fam_cmux<B: Bk>(run: &mut Run)
+where
+    Module<B>: HalAll<B> + CoreAll<B> + Cmux<B> + Cswap<B>,
+    Scratch<B>: ScratchTakeCore<B>,
+{
+    let (seed, tier) = (run.seed, run.tier);
+    run.family(
+        &format!("cmux/{}", B::NAME),
+        "outer = (cmux | cmux_assign | cmux_assign_neg | cswap, GGSW gadget shape); inner = selector bit in {0,1} x input pairs with extreme messages / raw extreme ciphertexts; oracle = the result's exact phase equals the phase of exactly the selected input within the bound (and not the other one), rounded plaintext exact",
+        cmux_cases::<B>(tier),
+        |c, rec| exec_cmux::<B>(c, seed, tier, rec),
+    );
+}
+
+fn fam_ggsw_conv<B: Bk>(run: &mut Run)
+where
+    Module<B>: HalAll<B> + CoreAll<B>,
+    Scratch<B>: ScratchTakeCore<B>,
+{
+    let seed = run.seed;
+    let tier = run.tier;
+    run.family(
+        &format!("ggsw_conversion/{}", B::NAME),
+        "outer = (ggsw_from_gglwe | ggsw_expand_row | ggsw_keyswitch[_assign] | ggsw_automorphism[_assign], key/tensor-key gadget shape, GGSW gadget, res.dnum <= a.dnum, m2, g); every cell: column 0 = image of the input cell and = m2*gadget(row), column j = s_{j-1} * column 0, within the R9 bounds",
+        ggsw_conv_cases::<B>(tier, &["ggsw_from_gglwe", "ggsw_expand_row", "ggsw_keyswitch", "ggsw_keyswitch_assign", "ggsw_automorphism", "ggsw_automorphism_assign"]),
+        |c, rec| exec_ggsw_conv::<B>(c, seed, rec),
+    );
+}
+
+/// GGSW key switch for C03 (same executor, key-switch operations only)
+pub fn fam_ggsw_keyswitch<B: Bk>(run: &mut Run)
+where
+    Module<B>: HalAll<B> + CoreAll<B>,
+    Scratch<B>: ScratchTakeCore<B>,
+{
+    let seed = run.seed;
+    let tier = run.tier;
+    run.family(
+        &format!("ggsw_keyswitch/{}", B::NAME),
+        "outer = (ggsw_keyswitch | ggsw_keyswitch_assign, key and tensor-key gadget shape, GGSW gadget, res.dnum <= a.dnum, m2); every cell: column 0 = input cell's exact phase under the target secret, column j = s_{j-1} * column 0, within the R9 bounds; zero- and garbage-filled scratch",
+        ggsw_conv_cases::<B>(tier, &["ggsw_keyswitch", "ggsw_keyswitch_assign"]).into_iter().filter(|c| c.shape.n == 8).collect(),
+        |c, rec| exec_ggsw_conv::<B>(c, seed, rec),
+    );
+}
+
+pub fn run(run: &mut Run) {
+    run.assume("ring degree N in {8,16}; radices in {8,10,12,17}; ternary secrets; GGSW respects ceil(k/b) > dsize and dnum*dsize <= ceil(k/b)");
+    run.assume("a GGSW cell (row, col) holds m2 * 2^-((row+1) dsize b) * (1 for col 0, +s_{col-1} otherwise): the sign that makes sum_j digits(c_j) x row_j decrypt to m2 * (c_0 + sum c_j s_j); verified on every library-encrypted GGSW before it is used");
+    run.assume("noise samples are hard-bounded (|e| <= bound + 1/2 units of 2^-k); normalised digits have magnitude <= 2^(b-1); the CMux family decomposes an un-normalised difference (digits <= 2^b)");
+    run.assume("CMux admissible domain: all operands in the GGSW radix (the product routine asserts it); cswap is also driven through its documented res-radix != GGSW-radix branch");
+    run.assume("every call is run from zero-filled and from garbage-filled scratch (companion query + 64 KiB re-filled, 2 MiB arena); the C04 verdict is taken on the zero-filled run, a difference between the two ciphertexts is reported as scratch_dependent_result (C12 class)");
+    for_backends!(fam_xp(run));
+    for_backends!(fam_matxp(run));
+    for_backends!(fam_cmux(run));
+    for_backends!(fam_ggsw_conv(run));
+}
+
+pub fn replay(run: &mut Run, d: &Value) {
+    let backend = d["backend"].as_str().unwrap_or("").to_string();
+    let fam = d["family"].as_str().unwrap_or("").to_string();
+    let seed = d["seed"].as_u64().unwrap_or(0);
+    let tier = Tier::Thorough;
+    macro_rules! go {
+        ($B:ty) => {{
+            if fam.starts_with("glwe_external_product") {
+                let c: XpCase = serde_json::from_value(d["case"].clone()).unwrap();
+                let only: Option<(M2, Input)> = d.get("inner").and_then(|i| {
+                    let m2 = serde_json::from_value(i.get("m2")?.clone()).ok()?;
+                    let inp = serde_json::from_value(i.get("input")?.clone()).ok()?;
+                    Some((m2, inp))
+                });
+                run.single(&fam, "replay", |rec| exec_xp::<$B>(&c, only, seed, tier, rec));
+            } else if fam.starts_with("matrix_external_product") {
+                let c: MatXpCase = serde_json::from_value(d["case"].clone()).unwrap();
+                run.single(&fam, "replay", |rec| exec_matxp::<$B>(&c, seed, rec));
+            } else if fam.starts_with("cmux") {
+                let c: CmuxCase = serde_json::from_value(d["case"].clone()).unwrap();
+                run.single(&fam, "replay", |rec| exec_cmux::<$B>(&c, seed, tier, rec));
+            } else if fam.starts_with("ggsw_conversion") {
+                let c: GgswConvCase = serde_json::from_value(d["case"].clone()).unwrap();
+                run.single(&fam, "replay", |rec| exec_ggsw_conv::<$B>(&c, seed, rec));
+            } else {
+                panic!("unknown family {fam}");
+            }
+        }};
+    }
+    match backend.as_str() {
+        "fft64-ref" => go!(FFT64Ref),
+        "ntt120-ref" => go!(NTT120Ref),
+        "fft64-avx" => go!(FFT64Avx),
+        "ntt120-avx" => go!(NTT120Avx),
+        o => panic!("unknown backend {o}"),
+    }
 }
